@@ -639,7 +639,8 @@ _run_clauses = run
 
 def run(prog, rep):
     _run_clauses(prog, rep)
-    from plint.wiring import check_zero_init
+    from plint.wiring import check_zero_init, check_error_contract
+    check_error_contract(rep, "C10.1", prog, ['psocket.c'], 50)
     check_zero_init(rep, "C10.5", prog, ['psocket.c'], 1)
 
 # generic robustness battery: renaming every local/parameter in these files must not change any verdict
